@@ -49,6 +49,7 @@ pub fn generate(prop: &str, tier: &str, seed: u64) -> Vec<Episode> {
         "C09" => lutops::gen_c09(thorough, seed),
         "C10a" => lutops::gen_c10a(thorough, seed),
         "C10b" => lutops::gen_c10b(thorough, seed),
+        "C10s" => lutops::gen_c10s(thorough, seed),
         "C11" => lutops::gen_c11(thorough, seed),
         "C17" => lutops::gen_c17(thorough, seed),
         "C19" => lutops::gen_c19(thorough, seed),
